@@ -157,11 +157,21 @@ def opExec (j : Json) : Option Json := do
                     ("valid", Json.bool (valid S sc.g.rs picks)),
                     ("complete", Json.bool (complete S sc.g.rs runs picks))])
 
+/-- op `*.chunks`: the work distribution of the parallel scheduler -/
+def opChunks (j : Json) : Option Json := do
+  let cpu ← getNat? j "cpu"
+  let rem ← getArr? j "remaining"
+  let rem ← rem.toList.mapM asNat?
+  let t := numThreads cpu
+  pure (Json.mkObj [("threads", Json.num t), ("threads_pinned", Json.num (numThreadsPinned cpu)),
+                    ("chunks", Json.arr ((handout t rem).map (fun c => Json.arr (c.map (fun (x : Nat) => Json.num x)).toArray)).toArray)])
+
 def handle (op : String) (j : Json) : Option Json :=
   match op.splitOn "." with
   | [_, "trace"] => opTrace j
   | [_, "session"] => opSession j
   | [_, "exec"] => opExec j
+  | [_, "chunks"] => opChunks j
   | _ => none
 
 end RB.SchedDrv
